@@ -12,6 +12,7 @@ import hashlib
 import json
 import math
 import traceback
+import types
 from fractions import Fraction
 
 import numpy as np
@@ -19,45 +20,43 @@ import numpy as np
 from .. import regionref as rr
 from ..seams import ScriptedRNG, SeededRNG, TreeTooLarge, halton, patched_random, walk_tree
 
-ID = "C03"
-LEVEL = "exploration"
+ID, LEVEL, CHUNK = "C03", "exploration", 4
 TECHNIQUE = ("RNG-seam simulation of region samplers: exact enumeration for discrete regions, seeded "
              "chi-square vs independent membership/measure oracle for continuous ones")
-BUDGET = {"quick": (420, 60), "thorough": (40000, 1200)}
-CHUNK = 4
+BUDGET = {"quick": (400, 50), "thorough": (40000, 1150)}
 RULE = (
-    "one run = one region drawn from the tape: a primitive (box, spheroid, extruded non-convex/two-body/holed "
-    "mesh volume or its surface, voxelised mesh, polygon with holes/multipolygon, circle, sector, rectangle, "
-    "polyline, 3D path, point set, grid; random size, offset, rotation, height) or a pairwise "
-    "intersect/union/difference with a second region placed to overlap it; N seeded draws + scripted "
-    "adversarial draws (+ exhaustive RNG tree for discrete regions); distinct = digest of the region "
-    "description; non-trivial = composition, or rotated, or at non-zero height"
-)
+    "one run = one region drawn from the tape: a primitive (box, spheroid, extruded non-convex / two-body / holed mesh volume "
+    "or its surface, voxelised mesh, polygon with holes / multipolygon, circle, sector, rectangle, polyline, 3D path, point set, "
+    "grid; random size, offset, rotation, height) or a pairwise intersect/union/difference with a second region placed to "
+    "overlap it (via A.op(B), or 1 in 4 via the generic Intersection/Union/DifferenceRegion classes); N seeded draws + scripted "
+    "adversarial draws (+ the exhaustive RNG tree for discrete regions); distinct = digest of the region description; "
+    "non-trivial = composition, or rotated, or at non-zero height")
 COMPONENTS = {
-    "real": ["scenic.core.regions samplers (uniformPointInner of every class, generic intersection/union/"
-             "difference samplers, point-set intersection sampler)", "Region.uniformPointIn + Samplable.sample/sampleAll",
+    "real": ["scenic.core.regions samplers (uniformPointInner of every class, generic intersection/union/difference samplers, "
+             "point-set intersection sampler)", "Region.uniformPointIn + Samplable.sample/sampleAll",
              "scenic.core.geometry triangulation", "trimesh sampling / boolean / voxel code", "shapely set operations"],
     "stub": ["RNG back end behind random.* (seeded Mersenne Twister, branching enumerator, scripted sequences)",
-             "numpy.random global state (seeded from the tape)"],
-}
+             "numpy.random global state (seeded from the tape)"]}
 ASSUMPTIONS = [
-    "membership is judged with a margin (1e-6 x size; the sagitta of the library's polygon / icosphere approximations "
-    "when a circle, sector or spheroid is subtracted): boundary noise is never reported",
-    "reference cell probabilities come from Halton integration of the reference predicate; their binomial error bound "
-    "inflates the chi-square variance; alarm only at p < 1e-9, or a cell with expected count >= 30 that is never hit",
+    "membership is judged with a margin (1e-6 x size, plus the sagitta of the library's polygon / icosphere approximation when a "
+    "circle, sector or spheroid is subtracted): boundary noise is never reported",
+    "reference cell probabilities come from Halton integration of the reference predicate; their binomial error bound inflates "
+    "the chi-square variance; alarm only at p < 1e-9, or for a cell with expected count >= 30 that is never hit",
     "a RejectionException is a rejected scene: the law is judged conditionally on acceptance",
-    "GridRegion is used only as a sampled operand (intersect, left side of difference): its containsPoint has "
-    "documented nearest-cell semantics that differ from its sampler",
+    "GridRegion is only a sampled operand (intersect, left side of difference): its containsPoint has documented nearest-cell "
+    "semantics that differ from its sampler",
     "VoxelRegion is defined by its voxel centres + pitch (construction data); view regions and pruned regions are not generated",
-    "compositions the library cannot build or sample (NotImplementedError, missing circumcircle, undefined sampling) are counted, not judged",
+    "compositions the library cannot build or sample (NotImplementedError, missing circumcircle, undefined sampling, "
+    "ZeroDivisionError / RecursionError inside the library) are counted as refused, not judged",
+    "a violation is attributed to a known-finding key only if the same draws are clean under that defect's alternative reference set",
 ]
 
 TIER = "quick"
 NDRAW = {"quick": (3000, 1000), "thorough": (30000, 6000)}
 MREF = {"quick": 250000, "thorough": 1000000}
 ANG = [0.0, math.pi / 2, 0.3, -1.1, 2.5, math.pi, math.pi / 4, -2.0]
-KINDS = ["rect", "circle", "box", "polygon", "sector", "pointset", "polyline", "spheroid", "meshvol", "path",
-         "meshsurf", "grid", "voxel"]
+KINDS = ["rect", "circle", "box", "polygon", "sector", "pointset", "polyline", "spheroid", "meshvol", "path", "meshsurf", "grid", "voxel"]
+DIMCLASS = [("box", "spheroid", "meshvol", "voxel"), ("rect", "circle", "sector", "polygon"), ("meshsurf",), ("polyline", "path"), ("pointset",)]
 SHAPES = {  # parts: (shell, [holes]) in a 3x3-ish local frame
     "L": [([(0, 0), (2, 0), (2, 1), (1, 1), (1, 2), (0, 2)], [])],
     "ring": [([(0, 0), (3, 0), (3, 3), (0, 3)], [[(1, 1), (2, 1), (2, 2), (1, 2)]])],
@@ -74,7 +73,6 @@ def set_tier(tier):
 def prepare():
     import scenic.core.regions  # noqa: F401
     import scipy.stats  # noqa: F401
-
     assert abs(rr.vdc([7], 3)[0] - halton(7, 3)) < 1e-15
     rr.ico()
 
@@ -83,20 +81,13 @@ def classify(v):
     return v.get("detail", {}).get("finding")
 
 
-# ----------------------------------------------------------------------------------------
 # generator: tape -> (scenic region, reference set)
-# ----------------------------------------------------------------------------------------
-def zig(v):
+def zig(v):  # 0, 1, -1, 2, -2, ...
     return ((v + 1) // 2) * (1 if v % 2 else -1)
 
 
-class Leaf:
-    def __init__(self, reg, ref, center, size, tilted):
-        self.reg, self.ref, self.center, self.size, self.tilted = reg, ref, center, size, tilted
-
-
-def rings_of(parts, f):
-    return [np.array([f(p) for p in r]) for shell, holes in parts for r in [shell] + holes]
+def rings_of(parts):
+    return [np.array(r, float) for shell, holes in parts for r in [shell] + holes]
 
 
 def make_leaf(t, kind, near, tag):
@@ -104,21 +95,20 @@ def make_leaf(t, kind, near, tag):
     import shapely.geometry as sg
     import trimesh
     from scenic.core.vectors import Orientation, Vector
-
     size = 1 + 0.75 * t.draw(6, tag + "size")
-    planar = kind in ("rect", "circle", "sector", "polygon")
+    planar = kind in ("rect", "circle", "sector", "polygon", "pointset")
     if near is None:
         c = [1.5 * zig(t.draw(7, tag + "x")), 1.5 * zig(t.draw(7, tag + "y")), 1.25 * zig(t.draw(5, tag + "z"))]
     else:
-        nc, ns = near
+        nc, ns, nk = near
+        if kind == nk == "pointset" and t.draw(4, tag + "samelattice"):
+            size, ns = ns, 0.0  # same lattice as A: the two point sets share members
         c = [nc[0] + 0.35 * ns * zig(t.draw(5, tag + "dx")), nc[1] + 0.35 * ns * zig(t.draw(5, tag + "dy")),
              nc[2] + (0.5 if t.draw(4, tag + "dz") == 3 else 0.0 if planar else 0.3 * ns * zig(t.draw(3, tag + "dz3")))]
     yaw = ANG[t.draw(8, tag + "yaw")]
     ypr = (yaw, ANG[t.draw(8, tag + "pitch")] if t.draw(2, tag + "tilt") else 0.0,
            ANG[t.draw(8, tag + "roll")] if t.draw(3, tag + "tilt2") == 2 else 0.0)
-    tilted = any(ypr)
-    if kind in ("polyline", "pointset", "grid"):
-        tilted = False
+    tilted = any(ypr) and kind not in ("polyline", "pointset", "grid")
     if kind in ("polyline", "grid"):
         c[2] = 0.0
 
@@ -131,7 +121,7 @@ def make_leaf(t, kind, near, tag):
         shape = t.choice(sorted(SHAPES), tag + "shape")
         parts, h = SHAPES[shape], 0.5 + 0.5 * t.draw(4, tag + "h")
         mesh = trimesh.util.concatenate([trimesh.creation.extrude_polygon(sg.Polygon(s, hs), h) for s, hs in parts])
-        raw = rings_of(parts, lambda p: p)
+        raw = rings_of(parts)
         lo, hi = np.concatenate(raw).min(axis=0), np.concatenate(raw).max(axis=0)
         dims = (size, 1 + 0.5 * t.draw(6, tag + "l"), 0.5 + 0.5 * t.draw(4, tag + "dh")) if t.draw(2, tag + "scaled") else None
         sc = np.array(dims) / np.append(hi - lo, h) if dims else np.ones(3)
@@ -157,7 +147,7 @@ def make_leaf(t, kind, near, tag):
         polys = [sg.Polygon(sh, hs) for sh, hs in parts]
         reg = R.PolygonalRegion(polygon=polys[0] if len(polys) == 1 else sg.MultiPolygon(polys), z=c[2])
         desc = {"kind": "PolygonalRegion", "shape": shape, "parts": parts, "z": c[2]}
-        ref = rr.PolyRef(rings_of(parts, lambda p: p), (0.0, 0.0, c[2]), kind="polygon", desc=desc)
+        ref = rr.PolyRef(rings_of(parts), (0.0, 0.0, c[2]), kind="polygon", desc=desc)
         tilted = bool(yaw)
     elif kind == "circle":
         reg, ref, tilted = R.CircularRegion(Vector(*c), size), rr.DiscRef(c, size), False
@@ -190,7 +180,7 @@ def make_leaf(t, kind, near, tag):
         tilted = kind == "path"
     elif kind == "pointset":
         mask, zmask = t.draw(1 << 16, tag + "mask") | 0x21, t.draw(1 << 16, tag + "zmask")
-        pts = [(c[0] + 0.4 * size * (i % 4 - 1.5), c[1] + 0.4 * size * (i // 4 - 1.5), c[2] + (1.0 if zmask >> i & 1 else 0.0))
+        pts = [(c[0] + 0.4 * size * (i % 4 - 1.5), c[1] + 0.4 * size * (i // 4 - 1.5), c[2] + (0.4 * size if zmask >> i & 1 else 0.0))
                for i in range(16) if mask >> i & 1]
         reg, ref = R.PointSetRegion("ps", pts), rr.PtsRef(pts)
     elif kind == "grid":
@@ -201,33 +191,19 @@ def make_leaf(t, kind, near, tag):
         reg = R.GridRegion("grid", grid, ax, ay, bx, by)
         pts = [(ax * x + bx, ay * y + by, 0.0) for y in range(ny) for x in range(nx) if not grid[y][x]]
         ref = rr.PtsRef(pts, "grid", {"kind": "GridRegion", "grid": grid, "Ax": ax, "Ay": ay, "Bx": bx, "By": by})
-    return Leaf(reg, ref, c, size, tilted)
+    return types.SimpleNamespace(reg=reg, ref=ref, center=c, size=size, tilted=tilted)
 
 
-# ----------------------------------------------------------------------------------------
 # drawing through the seam
-# ----------------------------------------------------------------------------------------
-def xyz(p):
-    return (float(p.x), float(p.y), float(p.z))
+xyz = lambda p: (float(p.x), float(p.y), float(p.z))  # noqa: E731
 
 
-def one_draw(reg, dist, via):
-    from scenic.core.distributions import Samplable
-
-    if via == 1:
-        return dist.sample()
-    if via == 2:
-        return Samplable.sampleAll([dist])[dist]
-    return reg.uniformPointInner()
-
-
-class Livelock(Exception):
-    pass
+Livelock = type("Livelock", (Exception,), {})
 
 
 class Capped:
-    """Seam wrapper: a single draw that consumes more than `cap` random numbers is abandoned (e.g. the
-    probability-zero event u = 0.0 selecting a zero-area triangle makes the polygon sampler loop forever)."""
+    """Seam wrapper: a draw consuming more than `cap` random numbers is abandoned (u = 0.0 can select a
+    zero-area triangle, on which the polygon sampler loops forever: probability zero, not judged)."""
 
     def __init__(self, impl, cap):
         self.impl, self.cap, self.n = impl, cap, 0
@@ -240,24 +216,23 @@ class Capped:
             if self.n > self.cap:
                 raise Livelock(name)
             return f(*a, **k)
-
         return g
 
 
 def draw_batch(reg, n, rng, npseed, via, stats, max_consec=400, cap=200000):
     """Up to n accepted draws; gives up after max_consec rejections in a row before the first success
-    (8x that later) or 8n rejections.  Rejections are rejected scenes, not outcomes."""
+    (8x that later) or 3n rejections.  Rejections are rejected scenes, not outcomes."""
     import scenic.core.regions as R
-    from scenic.core.distributions import RejectionException
-
+    from scenic.core.distributions import RejectionException, Samplable
     np.random.seed(npseed % (1 << 32))
     dist = R.Region.uniformPointIn(reg) if via else None
+    one = [reg.uniformPointInner, lambda: dist.sample(), lambda: Samplable.sampleAll([dist])[dist]][via]
     pts, rej, consec, rng = [], 0, 0, Capped(rng, cap)
     with patched_random(rng):
-        while len(pts) < n and consec <= (max_consec * 8 if pts else max_consec) and rej <= 8 * n + max_consec:
+        while len(pts) < n and consec <= (max_consec * 8 if pts else max_consec) and rej <= 3 * n + max_consec:
             rng.n = 0
             try:
-                pts.append(xyz(one_draw(reg, dist, via)))
+                pts.append(xyz(one()))
                 consec = 0
             except RejectionException:
                 rej += 1
@@ -274,9 +249,8 @@ def member_violations(ref, P, clause, info):
         return []
     s = ref.sd(P)
     bad = s > ref.tol
-    out = getattr(ref, "outer", None)
-    if out is not None:
-        bad |= out[0].sd(P) > out[1]
+    if hasattr(ref, "outer"):  # voxels: also within the mesh dilated by the voxel diagonal
+        bad |= ref.outer[0].sd(P) > ref.outer[1]
     if not bad.any():
         return []
     i = int(np.nonzero(bad)[0][0])
@@ -288,21 +262,14 @@ def member_violations(ref, P, clause, info):
     return [{"clause": clause, "detail": d}]
 
 
-# ----------------------------------------------------------------------------------------
 # oracle (b): exact law of discrete regions
-# ----------------------------------------------------------------------------------------
-def key9(p):
-    return tuple(round(float(x), 9) + 0.0 for x in p)
-
-
-def leaves_of(ref):
-    return leaves_of(ref.A) + leaves_of(ref.B) if isinstance(ref, rr.Comp) else [ref]
+key9 = lambda p: tuple(round(float(x), 9) + 0.0 for x in p)  # noqa: E731
+leaves_of = lambda ref: leaves_of(ref.A) + leaves_of(ref.B) if isinstance(ref, rr.Comp) else [ref]  # noqa: E731
 
 
 def enumerate_law(reg, stats):
     """Every RNG outcome of one draw, with exact probabilities: ({point: P}, P(rejected)) or None."""
     from scenic.core.distributions import RejectionException
-
     def execute():
         try:
             return key9(xyz(reg.uniformPointInner()))
@@ -311,16 +278,15 @@ def enumerate_law(reg, stats):
 
     law, prej = {}, Fraction(0)
     try:
-        for out, pr, rng in walk_tree(execute, strata=12, max_leaves=4000):
+        for out, pr, rng in walk_tree(execute, strata=12, max_leaves=4000):  # strata 12: random() < 1 - 1/k exact for k <= 4
             if rng.nonexact:
-                stats["unjudged:exact-law-nonexact-rng"] = 1
-                return None
+                raise TreeTooLarge
             if out is None:
                 prej += pr
             else:
                 law[out] = law.get(out, Fraction(0)) + pr
     except TreeTooLarge:
-        stats["unjudged:exact-law-tree-too-large"] = 1
+        stats["unjudged:exact-law-tree-too-large-or-nonexact"] = 1
         return None
     stats["judged:exact-law"] = 1
     return law, prej
@@ -346,12 +312,9 @@ def law_violations(ref, law, prej, info):
     return [{"clause": "exact-law", "detail": d}]
 
 
-# ----------------------------------------------------------------------------------------
 # oracle (c): uniformity of continuous regions
-# ----------------------------------------------------------------------------------------
 def uniformity(ref, P, info, stats, extra):
     import scipy.stats
-
     Rp = ref.points(MREF[TIER])
     if len(Rp) < 1500:
         stats["unjudged:reference-set-too-small"] = 1
@@ -384,27 +347,21 @@ def uniformity(ref, P, info, stats, extra):
         v.append({"clause": "uniformity-chi2", "detail": base})
     never = [int(k) for k in range(cells.ncell) if obs[k] == 0 and N * (q[k] - 6 * se[k]) >= 30]
     if never:
-        ci = cells.index(est)
-        v.append({"clause": "cell-never-hit", "detail": dict(base, cells_never_hit=never,
-                  example_points_there=[[float(x) for x in est[ci == k][0]] for k in never[:3]])})
+        there = [[float(x) for x in est[cells.index(est) == k][0]] for k in never[:3]]
+        v.append({"clause": "cell-never-hit", "detail": dict(base, cells_never_hit=never, example_points_there=there)})
     return v
 
 
-# ----------------------------------------------------------------------------------------
 # defect models: alternative reference sets describing one specific library defect each.  A violation
 # is attributed to a finding only if the same observations are clean under that model.
-# ----------------------------------------------------------------------------------------
 def relevel(ref, z=None):
-    """Copy of a planar leaf at height 0 (z=0) or with its height ignored (z=None)."""
+    """Copy of a planar leaf at height z, or with its height ignored (z=None)."""
     if ref.dim != 2 or getattr(ref, "hz", 0):
         return ref
     r = copy.copy(ref)
-    if z is None:
-        r.zfree = True
-    else:
-        for a in ("c", "pos"):
-            if hasattr(r, a):
-                setattr(r, a, np.array([getattr(r, a)[0], getattr(r, a)[1], z]))
+    r.zfree, a = z is None, "c" if hasattr(r, "c") else "pos"
+    if z is not None:
+        setattr(r, a, np.array([getattr(r, a)[0], getattr(r, a)[1], z]))
         r.zs = [z]
     return r
 
@@ -421,14 +378,15 @@ def kite(ref):
 
 def defect_models(A, B, op, reg):
     import scenic.core.regions as R
-
-    out = []
+    out, tr = [], []
     if not op:
         return out
-    tr = []
-    if R.toPolygon(A.reg) is not None and R.toPolygon(B.reg) is not None and any(getattr(x.reg, "z", 0) != 0 for x in (A, B)):
+    # the generic classes sample their operands directly: polygon approximations play no role there
+    shapely_path = not isinstance(reg, (R.IntersectionRegion, R.UnionRegion, R.DifferenceRegion))
+    flat = all(R.toPolygon(x.reg) is not None for x in (A, B))
+    if shapely_path and flat and any(getattr(x.reg, "z", 0) != 0 for x in (A, B)):
         tr.append(("polygonal-composition-ignores-z", lambda r: relevel(r, 0.0)))
-    if any(kite(x.ref) is not x.ref for x in (A, B)):
+    if shapely_path and any(kite(x.ref) is not x.ref for x in (A, B)):
         tr.append(("sector-polygon-mask-cuts-arc", kite))
     for keys in ([t] for t in tr) if len(tr) < 2 else ([tr[0]], [tr[1]], tr):
         a, b = A.ref, B.ref
@@ -438,7 +396,7 @@ def defect_models(A, B, op, reg):
     if isinstance(reg, R.IntersectionRegion) and reg.sampler is not None:  # PointSetRegion.intersect's own sampler
         ps, o = (A, B) if reg.regions[0] is A.reg else (B, A)
         ctr, rad = o.reg.circumcircle
-        ball = rr.BallRef(xyz(ctr), rad)
+        ball = rr.BallRef(xyz(ctr), abs(rad))  # a negative radius (sector beyond pi) acts as |r| in the k-d tree query
         out.append(("pointset-intersection-circumcircle-too-small", rr.Comp("intersect", ps.ref, rr.Comp("intersect", ball, o.ref))))
         if type(o.reg).containsPoint is R.PolygonalRegion.containsPoint:
             out.append(("pointset-intersection-ignores-height",
@@ -446,19 +404,23 @@ def defect_models(A, B, op, reg):
     return out
 
 
-# ----------------------------------------------------------------------------------------
 def run(tape):
     import scenic.core.regions as R
-
     N, Nslow = NDRAW[TIER]
     stats, violations, extra = {}, [], {}
     op = [None, "intersect", "union", "difference"][tape.weighted([4, 3, 3, 3], "op")]
-    kinds = [tape.choice([k for k in KINDS if k != "grid" or op != "union"], "kindA")]
-    A = make_leaf(tape, kinds[0], None, "A.")
-    B = None
+    more = ["pointset"] * 3 if op == "intersect" else []  # the point-set intersection sampler is a mechanism of its own
+    kinds = [tape.choice([k for k in KINDS if k != "grid" or op != "union"] + more, "kindA")]
+    A, B = make_leaf(tape, kinds[0], None, "A."), None
     if op:
-        kinds.append(tape.choice([k for k in KINDS if k != "grid" or op == "intersect"], "kindB"))
-        B = make_leaf(tape, kinds[1], (A.center, A.size), "B.")
+        menu = [k for k in KINDS if k != "grid" or (op == "intersect" and kinds[0] not in ("pointset", "grid"))]
+        if kinds[0] == "grid":  # a grid must be the operand that is sampled, never the one whose containsPoint decides
+            menu, more = [k for k in menu if k != "pointset"], []
+        if op == "union" and tape.draw(3, "same-dimension"):  # unions of equal dimension are the ones with a measure to get wrong
+            menu = [k for k in menu if any(k in c and kinds[0] in c for c in DIMCLASS)]
+        kinds.append(tape.choice(menu + more, "kindB"))
+        B = make_leaf(tape, kinds[1], (A.center, A.size, kinds[0]), "B.")
+    generic = bool(op) and tape.draw(4, "generic") == 3
     via = tape.weighted([5, 2, 1], "via")
     seed = tape.draw(1 << 30, "rng-seed")
     h0 = tape.draw(64, "halton-offset")
@@ -469,23 +431,26 @@ def run(tape):
     stats["via:" + ["uniformPointInner", "uniformPointIn.sample", "Samplable.sampleAll"][via]] = 1
     key = hashlib.blake2b(json.dumps(ref.desc, sort_keys=True, default=repr).encode(), digest_size=8).hexdigest()
     dig = hashlib.blake2b(key.encode(), digest_size=8)
-    info = {"region": ref.desc, "seed": seed, "drawn_via": via}
+    info = {"region": ref.desc, "seed": seed, "drawn_via": via, "generic_composition_class": generic}
     steps, rtype = 0, None
     try:
-        reg = getattr(A.reg, op)(B.reg) if op else A.reg
+        if generic:  # what the library falls back to for random operands: the generic samplers
+            stats["generic-composition-class"] = 1
+            reg = {"intersect": R.IntersectionRegion, "union": R.UnionRegion, "difference": R.DifferenceRegion}[op](A.reg, B.reg)
+        else:
+            reg = getattr(A.reg, op)(B.reg) if op else A.reg
         rtype = type(reg).__name__
         stats["result:" + rtype] = 1
         if isinstance(reg, R.EmptyRegion):
             stats["empty-result:reference-" + ("also-empty" if len(ref.points(20000)) < 20 else "nonempty-unjudged")] = 1
             raise StopIteration
         slow = isinstance(reg, R.MeshVolumeRegion) or (op and any(isinstance(x.reg, R.MeshRegion) for x in (A, B)))
-        n = 200 if ref.dim == 0 else Nslow if slow else N
+        n = 200 if ref.dim == 0 else (600 if generic else Nslow) if slow else N
         law = enumerate_law(reg, stats) if ref.dim == 0 else None
         P, rej = draw_batch(reg, n, SeededRNG(seed), seed, via, stats)
         scripts = [[0.0] * 40, [1 - 2.0 ** -53] * 40, [0.5] * 40, [0.0, 1 - 2.0 ** -53] * 20,
                    [halton(h0 + i // 2 + 1, 2 + i % 2) for i in range(24)], [halton(h0 + i + 1, 5) for i in range(12)]]
-        S = [draw_batch(reg, 3, ScriptedRNG(sc, seed=seed), seed + 1, via, stats, max_consec=100, cap=3000)[0] for sc in scripts]
-        S = np.concatenate(S)
+        S = np.concatenate([draw_batch(reg, 3, ScriptedRNG(sc, seed=seed), seed + 1, via, stats, max_consec=100, cap=3000)[0] for sc in scripts])
         stats["draws"], stats["rejections"], stats["scripted-draws"], steps = len(P), rej, len(S), len(P) + len(S)
         dig.update(np.round(P, 9).tobytes() + np.round(S, 9).tobytes() + repr(sorted(law[0].items()) if law else None).encode())
         if not len(P):
@@ -504,7 +469,7 @@ def run(tape):
 
         violations = judge(ref, stats, extra)
         need_chi2 = any(v["clause"] in ("uniformity-chi2", "cell-never-hit") for v in violations)
-        for fkey, mref in defect_models(A, B, op, reg) if violations else []:
+        for fkey, mref in defect_models(A, B, op, reg) if violations and not generic else []:
             st = {}
             if not judge(mref, st, {}) and (st.get("judged:uniformity") or not need_chi2):
                 for v in violations:
@@ -525,4 +490,4 @@ def run(tape):
     dig.update(json.dumps(sorted(stats.items())).encode())
     return {"violations": violations, "digest": dig.hexdigest(), "key": key, "stats": stats, "steps": steps, "simsec": 0.0,
             "nontrivial": bool(op) or A.tilted or A.center[2] != 0,
-            "sample": {"region": ref.desc, "result_type": rtype, "seed": seed, "drawn_via": via, **extra}}
+            "sample": {"region": ref.desc, "result_type": rtype, "seed": seed, "drawn_via": via, "generic": generic, **extra}}
